@@ -69,6 +69,36 @@ def h_mapping_faults(ctx, case):
     return 'returned'
 
 
+def h_stats_faults(ctx, case):
+    from harness.common import Env
+    from harness import refstats as RS
+    env = Env(ctx)
+    inp = RS.build_inputs(ctx, case, env)
+    res = RS.run_stage(ctx, case, env, inp, faults=True)
+    abnormal = [i for i, m in res['outcome'].items() if m != 'ok']
+    ctx.note('outcome', dict(res['outcome']))
+    if res['raised'] is not None:
+        ctx.reach('raised')
+        ctx.check(len(abnormal) > 0, 'the call raises only if a worker '
+                  'terminated abnormally')
+        ctx.check(not RS.accepted_as_complete(env, res['out']),
+                  'after a failed worker no file at the output location '
+                  'would be accepted as complete by a later stage')
+        return 'raised'
+    ctx.reach('returned')
+    ctx.check(len(abnormal) == 0, 'a worker terminated abnormally '
+              f'({[res["outcome"][i] for i in abnormal]}) but the call '
+              'returned normally')
+    if not abnormal:
+        RS.check_stats(ctx, inp, res, env)
+    return 'returned'
+
+
+def _rs_setup(case, mode):
+    from harness import refstats as RS
+    RS.setup(case, mode)
+
+
 HARNESSES = [
     Harness('winnow', h_winnow,
             cases=[{'n': n, 'dict': d} for n in (1, 2, 3, 4)
@@ -103,4 +133,28 @@ HARNESSES = [
             outside='a worker that exits 0 without doing its work; '
                     'deadlock of a real Manager lock; OS-level kill timing',
             expect_reach=['raised', 'returned'], selftest=6, split=48),
+    Harness('statistics_worker_faults', h_stats_faults, setup=_rs_setup,
+            cases=[{'cells': 2, 'genes': 1, 'clusters': 1, 'via_tree': True,
+                    'max_proc': 3},
+                   {'files': 2, 'cells': 1, 'genes': 1, 'clusters': 1,
+                    'via_tree': True, 'max_proc': 2}],
+            thorough_cases=[{'cells': 3, 'genes': 1, 'clusters': 2,
+                             'via_tree': True, 'max_proc': 3, 'K': 2},
+                            {'files': 2, 'cells': 2, 'genes': 1,
+                             'clusters': 1, 'via_tree': True,
+                             'max_proc': 3}],
+            funcs=['precompute_from_anndata.precompute_summary_stats_from_'
+                   'h5ad_list_and_tree',
+                   'precompute_summary_stats_from_h5ad_and_lookup',
+                   '_precompute_summary_stats_from_h5ad_and_lookup',
+                   '_process_chunk_spec',
+                   'multiprocessing_utils.winnow_process_list'],
+            stubs=['multiprocessing -> scheduler + fault model; h5py -> '
+                   'model; read_df_from_h5ad -> names'],
+            bounds='1-2 files, 2-3 cells, 1-3 workers, one abnormal worker '
+                   'termination (any worker, any mode), every completion '
+                   'order within K',
+            outside='a stale complete file already present at the output '
+                    'path before the run',
+            expect_reach=['raised', 'returned'], selftest=4, split=32),
 ]
